@@ -23,7 +23,7 @@ def generate(tier, rng):
                             continue
                         if n == 0 and repr_ is not None:
                             continue  # rustc rejects a repr on a zero-variant enum
-                        gen = 'ty' if (not unit_only and k % 3 == 0) else ''
+                        gen = ['ty', 'where', 'const', 'ty_nd'][(k // 3) % 4] if (not unit_only and k % 3 == 0) else ''
                         e = reprcorpus.make_enum('c06_%d' % k, 'EnC06x%d' % k, n, repr_, lname, lay, pl, unit_only,
                                                  ['FromRepr'], ['repr'], generics=gen)
                         k += 1
